@@ -54,6 +54,9 @@ structure Base (s1 : State) (tr : Server.Transport) (payload : Nat) : Prop where
   ar : s1.arcount + 1 ≤ 65535
   lim : s1.limit = (match tr with | .udp => 512 | .tcp => 65535)
   buf : tr = .udp → 512 ≤ s1.octets.size ∧ payload ≤ s1.octets.size
+  avail : s1.available = s1.limit
+  sizeL : s1.limit ≤ s1.octets.size
+  tsig : s1.tsig = none
 
 theorem do_formErr {α} (s : State) (h : 3 < s.octets.size) :
     (do setRcode (Server.RC "FORMERR"); pure none : M (Option α)) s = (.ok none, stRcode 1 s) := by
@@ -584,5 +587,253 @@ theorem scanAndDispatch_spec (cfg : Server.Cfg) (tr : Server.Transport) (now : N
           intro _
           rw [RC_NOTIMP, bind_ok (do_rcode 4 _ hS3)]
           rfl
+
+
+/-! ### `handle_message_with_context` -/
+
+/-- the writer as `handle_message_with_context` finds it: nothing but the header -/
+structure HdrOk (sH : State) (tr : Server.Transport) (payload : Nat) : Prop where
+  sect : sH.sect = .question
+  qd : sH.qdcount = 0
+  ar : sH.arcount = 0
+  qname : sH.qname = none
+  owner : sH.mostRecentOwner = none
+  inr : sH.mostRecentNameInRdata = none
+  cursor : sH.cursor = 12
+  edns : sH.edns = none
+  tsig : sH.tsig = none
+  lim : sH.limit = (match tr with | .udp => 512 | .tcp => 65535)
+  avail : sH.available = sH.limit
+  size : sH.limit ≤ sH.octets.size
+  buf : tr = .udp → payload ≤ sH.octets.size
+
+theorem HdrOk.lim512 {sH : State} {tr : Server.Transport} {payload : Nat} (h : HdrOk sH tr payload) :
+    512 ≤ sH.limit := by
+  rw [h.lim]; cases tr <;> simp
+
+/-- the model's form of the spec's question -/
+def toQ (q : Spec.DQuestion) : WName :=
+  match WName.parse q.qname with
+  | some (n, _) => n
+  | none => ⟨[]⟩
+
+/-- the writer after the question (if any) has been added -/
+def qSt (sH : State) (q : Option Spec.DQuestion) : State :=
+  match q with
+  | none => sH
+  | some q => (addQuestion (toQ q) q.qtype q.qclass sH).2
+
+theorem base_of_hdr (sH : State) (tr : Server.Transport) (payload : Nat) (h : HdrOk sH tr payload) :
+    Base sH tr payload := by
+  have := h.lim512
+  have h2 := h.avail
+  have h3 := h.size
+  have h4 := h.cursor
+  refine ⟨h.edns, by omega, by omega, by rw [h.ar]; omega, h.lim, ?_, h.avail, h.size, h.tsig⟩
+  intro htr
+  exact ⟨by omega, h.buf htr⟩
+
+/-- adding the (well-formed) question of the request to the header-only writer -/
+theorem qSt_some (sH : State) (tr : Server.Transport) (payload : Nat) (h : HdrOk sH tr payload)
+    (q : Spec.DQuestion) (qn : WName) (hp : WName.parse q.qname = some (qn, [])) (hw : qn.wire = q.qname)
+    (hl : q.qname.length ≤ 255) :
+    addQuestion qn q.qtype q.qclass sH = (.ok (), qSt sH (some q)) ∧ Base (qSt sH (some q)) tr payload ∧
+    (qSt sH (some q)).octets = writeAt (writeAt (writeAt sH.octets 12 q.qname) (12 + q.qname.length) (u16be q.qtype))
+                    (12 + q.qname.length + 2) (u16be q.qclass) ∧
+    (qSt sH (some q)).cursor = 12 + q.qname.length + 4 ∧ (qSt sH (some q)).qdcount = 1 ∧
+    (qSt sH (some q)).ancount = sH.ancount ∧ (qSt sH (some q)).nscount = sH.nscount ∧
+    (qSt sH (some q)).arcount = 0 := by
+  have h512 := h.lim512
+  have hav := h.avail
+  have hsz := h.size
+  have hcur := h.cursor
+  obtain ⟨s', hadd, ho, hc, hrr, hqd, han, hns, har, hlim, havl, hed, hts, hse⟩ :=
+    addQuestion_first qn q.qtype q.qclass sH h.sect h.qd h.qname h.owner h.inr
+      (by rw [hw]; omega) (by omega)
+  have htoq : toQ q = qn := by unfold toQ; rw [hp]
+  have hqs : qSt sH (some q) = s' := by
+    show (addQuestion (toQ q) q.qtype q.qclass sH).2 = s'
+    rw [htoq, hadd]
+  rw [hqs]
+  rw [hw, hcur] at ho hc
+  have hsz' : s'.octets.size = sH.octets.size := by rw [ho]; simp only [writeAt_size]
+  refine ⟨hadd, ⟨by rw [hed]; exact h.edns, by omega, by omega, by rw [har, h.ar]; omega,
+    by rw [hlim]; exact h.lim, ?_, by rw [havl, hlim]; exact hav, by omega, by rw [hts]; exact h.tsig⟩,
+    ho, hc, hqd, han, hns, by rw [har]; exact h.ar⟩
+  intro htr
+  exact ⟨by omega, by rw [hsz']; exact h.buf htr⟩
+
+/-- the spec's scan after the header checks (length, QR): `specScanWith` from QDCOUNT on -/
+def specBody (lookup : List UInt8 → Nat → Option Spec.Server.ZoneKind) (serverSize : Nat) (msg : Bytes) :
+    Spec.Server.Scan :=
+  if Spec.Server.hdr msg 4 > 1 then { respond := false }
+  else
+    let qres : Option (Option Spec.DQuestion × Nat) :=
+      if Spec.Server.hdr msg 4 = 0 then some (none, 12)
+      else match Spec.specQuestionAt msg 12 with
+        | some (w, t, c, nx) => some (some ⟨w, t, c⟩, nx)
+        | none => none
+    match qres with
+    | none => { respond := true, verdict := .formErr }
+    | some (q, p1) =>
+      specTail lookup serverSize msg q p1 (Spec.Server.hdr msg 6) (Spec.Server.hdr msg 8) (Spec.Server.hdr msg 10)
+        ((msg.getD 2 0).toNat / 8 % 16)
+
+theorem specScanWith_eq (lookup : List UInt8 → Nat → Option Spec.Server.ZoneKind) (serverSize : Nat) (msg : Bytes) :
+    Spec.Server.specScanWith lookup serverSize msg =
+      if msg.size < 12 then { respond := false }
+      else if (msg.getD 2 0).toNat ≥ 128 then { respond := false }
+      else specBody lookup serverSize msg := by
+  unfold Spec.Server.specScanWith specBody specTail
+  rfl
+
+theorem specQuestionAt_some (msg : Bytes) (pos : Nat) (w : List UInt8) (t c nx : Nat)
+    (h : Spec.specQuestionAt msg pos = some (w, t, c, nx)) :
+    ∃ p, parseCompressed msg pos = .ok p ∧ p.wire = w ∧ nx = pos + p.len + 4 ∧ nx ≤ msg.size ∧ w.length ≤ 255 := by
+  rw [specQuestionAt_eq] at h
+  cases hp : parseCompressed msg pos with
+  | ok p =>
+    rw [hp] at h
+    simp only at h
+    by_cases hle : pos + p.len + 4 ≤ msg.size
+    · simp only [hle, if_true, Option.some.injEq, Prod.mk.injEq] at h
+      obtain ⟨h1, _, _, h4⟩ := h
+      exact ⟨p, rfl, h1, h4.symm, by omega, by rw [← h1]; exact ((C14.C14_parse_ok_iff msg pos p).mp hp).2⟩
+    · simp only [hle, if_false] at h; cases h
+  | err e => rw [hp] at h; cases h
+  | panic => rw [hp] at h; cases h
+
+/-- header accessors of a reader on a message of at least twelve octets, in the spec's terms -/
+theorem reader_header (req : Bytes) (h12 : 12 ≤ req.size) :
+    let r0 : Reader := ⟨req, 12, none⟩
+    qdcount r0 = .ok (Spec.Server.hdr req 4) ∧ ancount r0 = .ok (Spec.Server.hdr req 6) ∧
+    nscount r0 = .ok (Spec.Server.hdr req 8) ∧ arcount r0 = .ok (Spec.Server.hdr req 10) ∧
+    msgId r0 = .ok (Spec.Server.hdr req 0) ∧
+    opcode r0 = .ok (((req.getD 2 0).toNat &&& 120) >>> 3) ∧
+    qr r0 = .ok (((req.getD 2 0).toNat &&& 128) != 0) ∧
+    Reader.rd r0 = .ok (((req.getD 2 0).toNat &&& 1) != 0) := by
+  intro r0
+  have hi : Inv r0 := ⟨h12, h12⟩
+  obtain ⟨_, h1, h2, h3, h4, h5⟩ := C15.C15_header_fields r0 hi
+  refine ⟨h2, h3, h4, h5, h1, ?_, ?_, ?_⟩
+  · have hlt : 2 < req.size := by omega
+    have : (req[2].toNat &&& 120) ≤ 120 := Nat.and_le_right
+    have h2 : (req[2].toNat &&& 120) >>> 3 < 16 := by rw [Nat.shiftRight_eq_div_pow]; omega
+    simp [opcode, idx, Gen.OPCODE_BYTE, Gen.OPCODE_MASK, Gen.OPCODE_SHIFT, hlt, h2, Array.getD, r0]
+  · have hlt : 2 < req.size := by omega
+    simp [qr, flag, idx, Gen.QR_BYTE, Gen.QR_MASK, hlt, Array.getD, r0]
+  · have hlt : 2 < req.size := by omega
+    simp [Reader.rd, flag, idx, Gen.RD_BYTE, Gen.RD_MASK, hlt, Array.getD, r0]
+
+theorem opcode_bits : ∀ x : UInt8, (x.toNat &&& 120) >>> 3 = x.toNat / 8 % 16 := by
+  apply Wire.forall_uint8; decide +kernel
+
+theorem hwc_spec (cfg : Server.Cfg) (tr : Server.Transport) (now : Nat) (req : Bytes) (h12 : 12 ≤ req.size)
+    (sH : State) (hH : HdrOk sH tr cfg.payload) (hreq : req.size ≤ Rdata.USIZE_MAX) (htf : TsigFacts) :
+    let sc := specBody (catKind cfg) cfg.payload req
+    (sc.respond = false → Server.handleWithContext cfg tr now ⟨req, 12, none⟩ sH = (.ok false, sH)) ∧
+    (sc.respond = true → noDataV sc.verdict = true →
+      Server.handleWithContext cfg tr now ⟨req, 12, none⟩ sH =
+        (.ok true, finalOf (qSt sH sc.question) tr cfg.payload sc)) := by
+  intro sc
+  obtain ⟨hqd, han, hns, har, _, hop, _, _⟩ := reader_header req h12
+  have hi0 : Inv (⟨req, 12, none⟩ : Reader) := ⟨h12, h12⟩
+  have hbH := base_of_hdr sH tr cfg.payload hH
+  have h3 : 3 < sH.octets.size := hbH.size3
+  unfold Server.handleWithContext
+  simp only [hqd, han, hns, har, hop, opcode_bits]
+  show (sc.respond = false → _) ∧ (sc.respond = true → _)
+  by_cases hq0 : Spec.Server.hdr req 4 = 0
+  · -- no question
+    have hsc : sc = specTail (catKind cfg) cfg.payload req none 12 (Spec.Server.hdr req 6) (Spec.Server.hdr req 8)
+        (Spec.Server.hdr req 10) ((req.getD 2 0).toNat / 8 % 16) := by
+      show specBody _ _ _ = _
+      unfold specBody
+      simp only [hq0, show ¬ (0 > 1) by omega, if_false, if_true]
+    have hresp : sc.respond = true := by
+      rw [hsc]; unfold specTail
+      repeat' split
+      all_goals rfl
+    simp only [hq0, if_true]
+    refine ⟨fun h => (by rw [hresp] at h; cases h), fun _ hv => ?_⟩
+    have hq : sc.question = none := by
+      rw [hsc]; unfold specTail
+      repeat' split
+      all_goals rfl
+    rw [hq]
+    have := scanAndDispatch_spec cfg tr now req none none trivial ⟨req, 12, none⟩ hi0 rfl sH hbH hreq htf
+      (Spec.Server.hdr req 6) (Spec.Server.hdr req 8) (Spec.Server.hdr req 10) ((req.getD 2 0).toNat / 8 % 16)
+      (by rw [← hsc]; exact hv)
+    rw [← hsc] at this
+    rw [bind_ok (show Server.addQuestionOrServfail none sH = (.ok true, sH) from rfl)]
+    simp only [Bool.not_true, Bool.false_eq_true, if_false]
+    exact this
+  · by_cases hq1 : Spec.Server.hdr req 4 = 1
+    · simp only [hq1, show ¬ ((1 : Nat) = 0) by omega, if_false, if_true]
+      have hrq := readQuestion_spec (⟨req, 12, none⟩ : Reader)
+      cases hsq : Spec.specQuestionAt req 12 with
+      | none =>
+        rw [show (⟨req, 12, none⟩ : Reader).octets = req from rfl,
+          show (⟨req, 12, none⟩ : Reader).cursor = 12 from rfl, hsq] at hrq
+        obtain ⟨x, hx⟩ := hrq
+        have hsc : sc = { respond := true, verdict := .formErr } := by
+          show specBody _ _ _ = _
+          unfold specBody
+          simp only [hq1, show ¬ ((1 : Nat) > 1) by omega, if_false, show ¬ ((1 : Nat) = 0) by omega, hsq]
+        simp only [hx, RC_FORMERR]
+        rw [hsc]
+        refine ⟨fun h => (by cases h), fun _ _ => ?_⟩
+        have := do_formErr_true sH h3
+        rw [RC_FORMERR] at this
+        exact this
+      | some v =>
+        obtain ⟨w, t, c, nx⟩ := v
+        rw [show (⟨req, 12, none⟩ : Reader).octets = req from rfl,
+          show (⟨req, 12, none⟩ : Reader).cursor = 12 from rfl, hsq] at hrq
+        simp only at hrq
+        obtain ⟨p, hp, hpw, hnx, hnxs, hwl⟩ := specQuestionAt_some req 12 w t c nx hsq
+        obtain ⟨qn, hqn, hqw⟩ := wname_of_parse req 12 p hp
+        rw [hpw] at hqn hqw
+        have hsc : sc = specTail (catKind cfg) cfg.payload req (some ⟨w, t, c⟩) nx (Spec.Server.hdr req 6)
+            (Spec.Server.hdr req 8) (Spec.Server.hdr req 10) ((req.getD 2 0).toNat / 8 % 16) := by
+          show specBody _ _ _ = _
+          unfold specBody
+          simp only [hq1, show ¬ ((1 : Nat) > 1) by omega, if_false, show ¬ ((1 : Nat) = 0) by omega, hsq]
+        have hresp : sc.respond = true := by
+          rw [hsc]; unfold specTail
+          repeat' split
+          all_goals rfl
+        have hq : sc.question = some ⟨w, t, c⟩ := by
+          rw [hsc]; unfold specTail
+          repeat' split
+          all_goals rfl
+        obtain ⟨hadd, hbase, _⟩ := qSt_some sH tr cfg.payload hH ⟨w, t, c⟩ qn hqn hqw hwl
+        simp only [hrq, hqn]
+        refine ⟨fun h => (by rw [hresp] at h; cases h), fun _ hv => ?_⟩
+        rw [hq]
+        have hQ : Server.addQuestionOrServfail (some (qn, t, c)) sH = (.ok true, qSt sH (some ⟨w, t, c⟩)) := by
+          show (match addQuestion qn t c sH with
+            | (.ok (), s') => ((.ok true : Out WriterErr Bool), s')
+            | (.err _, s') => (do setRcode (Server.RC "SERVFAIL"); pure false : M Bool) s'
+            | (.panic, s') => (.panic, s')) = _
+          rw [hadd]
+        rw [bind_ok hQ]
+        simp only [Bool.not_true, Bool.false_eq_true, if_false]
+        have := scanAndDispatch_spec cfg tr now req (some ⟨w, t, c⟩) (some (qn, t, c)) ⟨hqn, rfl, rfl⟩
+          ⟨req, nx, none⟩ ⟨h12, hnxs⟩ rfl _ hbase hreq htf
+          (Spec.Server.hdr req 6) (Spec.Server.hdr req 8) (Spec.Server.hdr req 10) ((req.getD 2 0).toNat / 8 % 16)
+          (by rw [← hsc]; exact hv)
+        rw [← hsc] at this
+        exact this
+    · -- more than one question: no response
+      have hgt : Spec.Server.hdr req 4 > 1 := by omega
+      have hsc : sc = { respond := false } := by
+        show specBody _ _ _ = _
+        unfold specBody
+        simp only [hgt, if_true]
+      simp only [hq0, hq1, if_false]
+      rw [hsc]
+      refine ⟨fun _ => ?_, fun h => (by cases h)⟩
+      first | rfl | trivial
 
 end QV.ServerScan
